@@ -791,11 +791,15 @@ inline const auto& parser_h()
         constexpr nterm<IV> ll("ll"), rl("rl"), wl("wl"), vl("vl");
         constexpr nterm<Top> top("top");
         constexpr regex_term<h_num_pattern> number("number");
-        return new parser(
+        // a NAMED functor object (an lvalue) with state: the rule keeps a copy of it as it was when the rule was written; it is reconfigured right after construction
+        struct NumF { int bias = 0; int operator()(std::string_view sv) const { int v = 0; for (char c : sv) v = (v * 10 + (c - '0')) % 100000; return (v + bias) % 100000; } };
+        static NumF numf;
+        numf.bias = 0;
+        auto* built = new parser(
             top, terms(number, ',', ';', ':', '(', ')', '[', ']', '!', '#'), nterms(top, ll, rl, wl, vl, num, tag, wide),
             rules(
                 top(ll, ';', rl, ';', wl, ';', vl, tag) >= [](IV&& a, skip, IV&& b, skip, IV&& c, skip, IV&& d, int t) { return Top{std::move(a), std::move(b), std::move(c), std::move(d), t}; },
-                num(number) >= [](std::string_view sv) { int v = 0; for (char c : sv) v = (v * 10 + (c - '0')) % 100000; return v; },
+                num(number) >= numf,
                 num('(', num, ')') >= _e2,
                 num('[', '[', num, ']', ']') >= _e3,
                 ll(num) >= construct<IV>{},                                  // IV{n}: a one-element list
@@ -812,6 +816,8 @@ inline const auto& parser_h()
                 tag('#', wide) >= [](skip, long w) { return int(w % 100000); }
             ),
             use_generated_lexer{}, h_limits{});
+        numf.bias = 4242;
+        return built;
     }();
     return *p;
 }
